@@ -43,7 +43,7 @@ COMPONENTS = {
     "real": ["DefaultTrackerHandler", "_update_optimal_result / _get_last_result", "optimizer/evaluator steps", "BasicOptimizer (10% of runs, real SLSQP/Nelder-Mead)", "ConstraintInfo"],
     "stub": ["SimEvaluator", "sim/scripted optimizer", "objective scaler incl. sign flip"],
 }
-PROBES = ["states_compared", "nan_result_in_history", "nan_first", "infeasible_in_history", "tie_in_history", "sign_flip",
+PROBES = ["nan_and_valid_in_one_event", "states_compared", "nan_result_in_history", "nan_first", "infeasible_in_history", "tie_in_history", "sign_flip",
           "untracked_source_result", "gradient_only_event", "nested", "basic_optimizer", "best_tracker", "last_tracker",
           "improvement_after_first"]
 
@@ -79,7 +79,10 @@ def generate(seed: int, index: int, tier: str) -> dict:
         cfg["realizations"]["realization_min_success"] = 0
         cfg["optimizer"]["options"]["allow_nan"] = True
         for _ in range(rng.randint(1, 2)):
-            scn["faults"].append({"kind": "nan", "eval": rng.choice([0, 0, 1, 2, 3]), "real": None, "pert": None, "col": None})
+            f = {"kind": "nan", "eval": rng.choice([0, 0, 1, 2, 3]), "real": None, "pert": None, "col": None}
+            if rng.random() < 0.5:
+                f["vec"] = rng.choice([0, 0, 1])  # only one vector of a batch fails (e.g. the first)
+            scn["faults"].append(f)
     else:
         cfg["optimizer"]["options"]["allow_nan"] = False
     # plan
@@ -243,6 +246,9 @@ def execute(scn: dict) -> dict:
                 continue
             if not any(isinstance(o, FunctionResults) for o in opt) and ti == 0:
                 probe("gradient_only_event")
+            vals_here = [float(o.functions.weighted_objective) for o in opt if isinstance(o, FunctionResults) and o.functions is not None]
+            if ti == 0 and any(np.isnan(v) for v in vals_here) and any(not np.isnan(v) for v in vals_here):
+                probe("nan_and_valid_in_one_event")
             for u, o in zip(rec.results, opt):
                 history.append((rec.n, u, o))
         if ti == 0:
